@@ -177,6 +177,53 @@ int main(int argc, char** argv) {
                  if (jm::has_dup_keys(s)) return;
                  judge(render_with(t, r, 0, 0), render_with(s, r, 0, 0), "prefix-keys");
                }});
+  // empty containers spelled with blanks inside, at the root and nested, on either side
+  S.push_back({"empty_containers_with_inner_blanks", 2000, 100000, [](uint64_t, vf::Rng& r) {
+                 auto blank = [&](const char* open, const char* close) {
+                   std::string b;
+                   for (size_t k = r.range(1, 3); k; k--) b += " \n\t\r"[r.below(4)];
+                   return std::string(open) + b + close;
+                 };
+                 auto val = [&](int depth, auto&& self) -> std::string {
+                   switch (r.below(depth > 2 ? 4 : 7)) {
+                     case 0: return blank("{", "}");
+                     case 1: return blank("[", "]");
+                     case 2: return "{}";
+                     case 3: return std::to_string(r.below(10));
+                     case 4: return "[" + self(depth + 1, self) + (r.coin() ? " , " + self(depth + 1, self) : "") + "]";
+                     default: {
+                       std::string o = "{";
+                       size_t n = r.range(1, 3);
+                       for (size_t k = 0; k < n; k++) o += (k ? "," : "") + std::string("\"k") + std::to_string(k) + "\":" + (r.coin() ? " " : "") + self(depth + 1, self);
+                       return o + (r.coin() ? " }" : "}");
+                     }
+                   }
+                 };
+                 c_ws.add();
+                 judge(val(0, val), val(0, val), "inner-blanks");
+               }});
+  // keys with bytes >= 0x80 next to ASCII keys, short (< 32 bytes) and long mixed in one object: the lookup map's
+  // ordering has to be one ordering for all of them
+  S.push_back({"high_byte_keys_short_and_long", 3000, 200000, [](uint64_t, vf::Rng& r) {
+                 JVal t = JVal::obj(), s = JVal::obj();
+                 size_t n = r.range(4, 20);
+                 std::string stem(r.below(3) ? r.below(4) : r.range(28, 34), 'q');
+                 for (size_t i = 0; i < n; i++) {
+                   std::string k = stem;
+                   k += r.coin() ? std::string("\xc3") + (char)r.range(0x80, 0xbf) : std::string(1, (char)r.range('a', 'z'));
+                   k += std::string(r.coin() ? r.below(6) : r.range(24, 40), r.coin() ? 'z' : 'y');
+                   if (r.coin()) k += "\xe2\x82\xac";
+                   k += std::to_string(i);
+                   t.o.emplace_back(k, r.coin() ? JVal::uint(i) : gen_objecty(r, 3, 2, true));
+                 }
+                 for (size_t i = 0; i < n; i++)
+                   if (r.coin()) s.o.emplace_back(t.o[i].first, r.coin() ? JVal::str("new") : gen_objecty(r, 3, 2, true));
+                 s.o.emplace_back("\xc3\xa9", JVal::uint(1));
+                 s.o.emplace_back("z", JVal::uint(2));
+                 if (jm::has_dup_keys(s) || jm::has_dup_keys(t)) return;
+                 c_prefix.add();
+                 judge(std::string(r.below(64), ' ') + render_with(t, r, 0, 0), std::string(r.below(64), ' ') + render_with(s, r, 0, 0), "high-byte-keys");
+               }});
   S.push_back({"generated_any", 8000, 800000, [](uint64_t, vf::Rng& r) {
                  jm::GenOpts go;
                  go.max_depth = 4;
